@@ -226,10 +226,18 @@ func CmdCheck(args []string) int {
 	for _, k := range rc.Known {
 		fmt.Println(k)
 	}
-	for _, v := range rc.Violation {
+	for i, v := range rc.Violation {
+		if i == 30 {
+			fmt.Printf("... and %d more violations (see %s)\n", len(rc.Violation)-30, filepath.Join(rc.Verif, "replays", p.ID))
+			break
+		}
 		fmt.Println(v)
 	}
-	for _, s := range rc.Inconcl {
+	for i, s := range rc.Inconcl {
+		if i == 30 {
+			fmt.Printf("... and %d more inconclusive items\n", len(rc.Inconcl)-30)
+			break
+		}
 		fmt.Printf("INCONCLUSIVE property=%s: %s\n", p.ID, s)
 	}
 	nPaths, nQ := 0, 0
@@ -594,6 +602,11 @@ func writeEvidence(rc *RunCtx, t0 time.Time, fatal []string) {
 		if len(samples) < 10 && len(r.Samples) > 0 {
 			samples = append(samples, map[string]interface{}{"harness": r.Harness, "params": r.Params, "path_witness": r.Samples[0]})
 		}
+	}
+	if v, ok := rc.Extra["states_override"].(int); ok {
+		states += v
+		transitions += v
+		delete(rc.Extra, "states_override")
 	}
 	samples = append(samples, rc.Samples...)
 	if len(samples) == 0 {
